@@ -264,6 +264,58 @@ CHECKS.update({
         "DESIGN.md section 3, C07"),
 })
 
+CHECKS.update({
+    "C16": (
+        "model_checking",
+        "exhaustive enumeration of (tool, document, arguments, delivery) "
+        "through the real main() entry points under a closed-world driver; "
+        "differential oracle against the library answer",
+        "For each of the six tools an enumerated product of documents, "
+        "arguments and deliveries (file, '-', implied stdin; YAML flow/block "
+        "and JSON; both notations) runs through the real console entry "
+        "point in-process: yaml-get lines and exit status, yaml-set edited "
+        "file / stdout, yaml-merge output in YAML and JSON, yaml-diff exit "
+        "status and printed entries, yaml-validate exit status, yaml-paths "
+        "lines must be the function of the library answer the property "
+        "states, and file and stdin delivery must agree. 54 cases are "
+        "re-run through a real subprocess (driver conformance).",
+        "the library answers are held against their models by C01, C03-C07",
+        "DESIGN.md section 3, C16"),
+    "C17": (
+        "fault_enumeration",
+        "exhaustive single-fault injection at every I/O call of the save "
+        "sequence (fail / torn / interrupt) + enumerated pre-write failure "
+        "causes; byte-level file invariants",
+        "Pre-write: every failure cause of yaml-set and yaml-merge x "
+        "documents x backup on/off x stale .bak on/off must leave a non-zero "
+        "status, identical target bytes and directory listing. Save "
+        "sequence: for three --backup scenarios x documents x stale .bak, a "
+        "fault of each of 3 kinds at the k-th interposed I/O call for EVERY "
+        "k (hundreds of calls per run): target or target.bak always holds "
+        "the complete original, and a completed run's .bak is the pre-image.",
+        "faults are exceptions / torn writes / interrupts at the process's "
+        "I/O calls; no fsync is issued by the tools, so power loss with "
+        "unsynced page cache is outside the claim",
+        "DESIGN.md section 3, C17"),
+    "C19": (
+        "model_checking",
+        "exhaustive enumeration of secret/plaintext placements through the "
+        "real eyaml-rotate-keys main() with a keyed reversible stand-in "
+        "cipher",
+        "Every assignment of slot kinds (secret one-line / folded / with "
+        "white-space, plaintext, look-alikes, int, null) to the slots of 5 "
+        "skeletons, plus anchored secrets aliased from hash values and list "
+        "elements, x backup on/off: every secret decrypts under the new keys "
+        "to its old plaintext and no longer under the old ones, one decrypt "
+        "+ one encrypt per anchor class, aliases stay shared, the frame "
+        "(keys, order, anchors, non-secrets) is unchanged, a file without "
+        "secrets is untouched, --backup leaves the pre-image, wrong old keys "
+        "fail.",
+        "hiera-eyaml is absent: a stand-in implements the same command-line "
+        "protocol (also exercised as a real executable)",
+        "DESIGN.md section 3, C19"),
+})
+
 NOT_YET = {
 }
 
